@@ -465,6 +465,27 @@ func (dd *msgpipelineDelivery) BodyNonAtomic(ctx context.Context, c module.Statu
 		setStatusAll(err)
 		return
 	}
+	for blk := range dd.rcptModifiersState {
+		if err := dd.checkRunner.checkBody(ctx, blk.checks, header, body); err != nil {
+			setStatusAll(err)
+			return
+		}
+	}
+
+	if dd.d.FirstPipeline {
+		// See the comment in Body.
+		received, err := target.GenerateReceived(ctx, dd.msgMeta, dd.d.Hostname, dd.msgMeta.OriginalFrom)
+		if err != nil {
+			setStatusAll(err)
+			return
+		}
+		header.Add("Received", received)
+	}
+
+	if err := dd.checkRunner.applyResults(dd.d.Hostname, &header); err != nil {
+		setStatusAll(err)
+		return
+	}
 
 	// Run modifiers after Authentication-Results addition to make
 	// sure signatures, etc will cover it.
